@@ -15,8 +15,8 @@ fn space(tier: Tier) -> &'static Space {
     static Q: OnceLock<Space> = OnceLock::new();
     static T: OnceLock<Space> = OnceLock::new();
     match tier {
-        Tier::Quick => Q.get_or_init(|| Space::new(&[("FX", 0), ("FS", 2), ("FC", 2), ("FA", 2), ("FT", 2), ("FL", 2)])),
-        Tier::Thorough => T.get_or_init(|| Space::new(&[("FX", 0), ("FS", 3), ("FC", 4), ("FA", 4), ("FT", 3), ("FL", 4)])),
+        Tier::Quick => Q.get_or_init(|| Space::new(&[("FX", 0), ("FS", 2), ("FC", 2), ("FA", 2), ("FT", 2), ("FL", 2), ("FW", 0)])),
+        Tier::Thorough => T.get_or_init(|| Space::new(&[("FX", 0), ("FS", 3), ("FC", 4), ("FA", 4), ("FT", 3), ("FL", 4), ("FW", 0)])),
     }
 }
 /// (samples, [(stream, scheduler installed)])
@@ -57,7 +57,7 @@ impl Prop for C01 {
         let mut nonconst = false;
         let mut runs = 0u64;
         for (si, sched) in cfgs {
-            let needs_sched = g.family == "FT" || g.family == "FL";
+            let needs_sched = ["FT", "FL", "FW"].contains(&g.family);
             let sched = sched || needs_sched;
             let vm = run_backend(Backend::Vm, &src, sched, g.inputs, si, n, false);
             let wa = run_backend(Backend::Wasm, &src, sched, g.inputs, si, n, false);
